@@ -74,3 +74,13 @@ M("C08", "parse-qs-second-value", "c2.py", "", "", "C08.R1", edits=[
     ("c2.py", "from urllib.parse import parse_qsl, urlsplit\n", "from urllib.parse import parse_qs, urlsplit\n"),
     ("c2.py", "    query = parse_qsl(result.query.decode(\"ascii\"), encoding=\"latin-1\")\n    params = {key.encode(\"latin-1\"): value.encode(\"latin-1\") for key, value in query}\n",
      "    query = parse_qs(result.query.decode(\"ascii\"), encoding=\"latin-1\")\n    params = {k.encode(\"latin-1\"): vs[1].encode(\"latin-1\") for k, vs in query.items()}\n")])
+
+# a field of the validated DOS header decoded by hand at its offset (benign/C18j kind)
+_HR_OLD = "    magic_pe = None\n    fh.seek(mz_offset)\n    mz = pestruct.IMAGE_DOS_HEADER(fh)\n    fh.seek(mz.e_lfanew + mz_offset)\n    magic_pe = fh.read(4).rstrip(b\"\\x00\")\n    return magic_pe\n"
+_HR_NEW = "    fh.seek(mz_offset + {OFF})\n    e_lfanew = int.from_bytes(fh.read({K}), \"{ORDER}\", signed=True)\n    fh.seek(e_lfanew + mz_offset)\n    return fh.read(4).rstrip(b\"\\x00\")\n"
+_HR_CONST = ("pe.py", "logger = logging.getLogger(__name__)\n", "logger = logging.getLogger(__name__)\nLFANEW_AT = len(pestruct.IMAGE_DOS_HEADER) - 4\n")
+T("C08", "twin-lfanew-decoded-by-hand", "pe.py", "", "", edits=[_HR_CONST, ("pe.py", _HR_OLD, _HR_NEW.replace("{OFF}", "LFANEW_AT").replace("{K}", "4").replace("{ORDER}", "little"))])
+T("C08", "twin-lfanew-decoded-by-hand-literal-offset", "pe.py", "", "", edits=[("pe.py", _HR_OLD, _HR_NEW.replace("{OFF}", "0x3C").replace("{K}", "4").replace("{ORDER}", "little"))])
+M("C08", "lfanew-by-hand-wrong-offset", "pe.py", "", "", "C08.R1", edits=[("pe.py", _HR_OLD, _HR_NEW.replace("{OFF}", "0x38").replace("{K}", "4").replace("{ORDER}", "little"))])
+M("C08", "lfanew-by-hand-wrong-byte-order", "pe.py", "", "", "C08.R1", edits=[("pe.py", _HR_OLD, _HR_NEW.replace("{OFF}", "0x3C").replace("{K}", "4").replace("{ORDER}", "big"))])
+M("C08", "lfanew-by-hand-two-bytes", "pe.py", "", "", "C08.R1", edits=[("pe.py", _HR_OLD, _HR_NEW.replace("{OFF}", "0x3C").replace("{K}", "2").replace("{ORDER}", "little"))])
